@@ -76,6 +76,8 @@ def case_strategy(draw, big=False):
                     o[e] = [o[e][0], o[e][1], float(o[e][2] - zmin + newz)]
             case['low'] = True
     case['pairseed'] = draw(st.integers(0, 2 ** 30))
+    # the matrix of an object that has been filled before (the statement holds for every fill)
+    case['refill'] = draw(st.integers(0, 3)) == 0
     return case
 
 
@@ -95,6 +97,9 @@ def check(case):
     except build.Rejected as e:
         return Result(skipped='rejected: ' + str(e)[:50])
     m.compute_impedance_matrix()
+    if case.get('refill'):
+        labels.append('second-fill-of-one-object')
+        m.compute_impedance_matrix()
     Z = np.array(m.Z)
     topo = build.ref_topology(case, m)
     # README: segments should not be longer than lambda/20 (the generators use lambda/10); with longer segments the
